@@ -290,6 +290,20 @@ def inject(doc, kind, loc, seed):
         n = c if ci is None else c.children[ci]
         old = s.vals[ei][ci if ci is not None else 0] if ei < len(s.vals) and (ci or 0) < len(s.vals[ei]) else ''
         v = bad_value(kind, n, old, r)
+        if kind == 'not-in-code-list' and n.ext and r.random() < .5:
+            # a value that is a member of ANOTHER external code list and occurs in this very document under that list
+            pool = set(mm.codes().get(n.ext, [])) | set(n.codes)
+            seen = []
+            for sg in d.segs:
+                for ei2, c2 in enumerate(sg.node.children):
+                    kids = [(c2, None)] if c2.kind == 'ele' else [(x, j) for j, x in enumerate(c2.children)]
+                    for n2, cj in kids:
+                        if n2.ext and n2.ext != n.ext and ei2 < len(sg.vals):
+                            val2 = sg.vals[ei2][cj or 0] if (cj or 0) < len(sg.vals[ei2]) else ''
+                            if val2 and val2 not in pool and n.minl <= len(val2) <= n.maxl:
+                                seen.append(val2)
+            if seen:
+                v = r.choice(seen)
         if v is None or v == old:
             return None
         _set(s, ei, ci, v)
